@@ -89,5 +89,78 @@ func genWiring(fc *fileCache) {
 	g.fact("moduleAccountAddrsBody", "List String", strList(body), "app/app.go ModuleAccountAddrs, one string per statement")
 	g.fact("moduleAccountAddrs_found", "Bool", boolStr(fd != nil), "")
 	g.found = append(g.found, "moduleAccountAddrs_found")
+	// C09 / C08 / C20: every wrapper module hands each hook to the module it wraps (the staking wrapper's EndBlock once did not),
+	// and the modules with begin/end-blockers of their own call them
+	var handsOn []string
+	for _, m := range []string{"auth", "bank", "distribution", "slashing", "staking"} {
+		for _, hook := range []string{"InitGenesis", "ExportGenesis", "BeginBlock", "EndBlock"} {
+			if delegatesTo(fc, "x/"+m+"/module.go", hook, "am.cosmosAppModule."+hook) {
+				handsOn = append(handsOn, m+"."+hook)
+			}
+		}
+	}
+	g.fact("wrapperHandsOn", "List String", strList(handsOn), "x/<module>/module.go <hook>: its single statement calls am.cosmosAppModule.<hook>(…) with the same arguments")
+	var own []string
+	for _, c := range [][3]string{{"mint", "BeginBlock", "BeginBlocker"}, {"gov", "EndBlock", "EndBlocker"}, {"shield", "EndBlock", "EndBlocker"},
+		{"oracle", "EndBlock", "EndBlocker"}, {"oracle", "BeginBlock", "BeginBlocker"}, {"cvm", "BeginBlock", "BeginBlocker"}, {"cvm", "EndBlock", "EndBlocker"}, {"shield", "BeginBlock", "BeginBlock"}, {"crisis", "EndBlock", "crisis.EndBlocker"}} {
+		if callsFirst(fc, "x/"+c[0]+"/module.go", c[1], c[2]) {
+			own = append(own, c[0]+"."+c[1])
+		}
+	}
+	g.fact("ownBlockers", "List String", strList(own), "x/<module>/module.go <hook>: its first statement calls the module's own begin/end-blocker")
 	g.write("Wiring", nil)
+}
+
+// delegatesTo: the method's single statement is `[return] callee(args…)` where the arguments are the method's own parameters in order.
+func delegatesTo(fc *fileCache, rel, fn, callee string) bool {
+	fd := fc.fn(rel, fn)
+	if fd == nil || len(fd.Body.List) != 1 {
+		return false
+	}
+	var ce *ast.CallExpr
+	switch t := fd.Body.List[0].(type) {
+	case *ast.ReturnStmt:
+		if len(t.Results) == 1 {
+			ce, _ = t.Results[0].(*ast.CallExpr)
+		}
+	case *ast.ExprStmt:
+		ce, _ = t.X.(*ast.CallExpr)
+	}
+	if ce == nil || src(fc.fset, ce.Fun) != callee {
+		return false
+	}
+	var params []string
+	for _, f := range fd.Type.Params.List {
+		for _, n := range f.Names {
+			params = append(params, n.Name)
+		}
+	}
+	if len(params) != len(ce.Args) {
+		return false
+	}
+	for i, a := range ce.Args {
+		if src(fc.fset, a) != params[i] {
+			return false
+		}
+	}
+	return true
+}
+
+// callsFirst: the method's first statement is a call whose callee's name ends with `name` (BeginBlocker(ctx, …), am.keeper.X…)
+func callsFirst(fc *fileCache, rel, fn, name string) bool {
+	fd := fc.fn(rel, fn)
+	if fd == nil || len(fd.Body.List) == 0 {
+		return false
+	}
+	es, ok := fd.Body.List[0].(*ast.ExprStmt)
+	if !ok {
+		if rs, ok2 := fd.Body.List[0].(*ast.ReturnStmt); ok2 && len(rs.Results) == 1 {
+			if ce, ok3 := rs.Results[0].(*ast.CallExpr); ok3 {
+				return strings.HasSuffix(src(fc.fset, ce.Fun), name)
+			}
+		}
+		return false
+	}
+	ce, ok := es.X.(*ast.CallExpr)
+	return ok && strings.HasSuffix(src(fc.fset, ce.Fun), name)
 }
